@@ -300,3 +300,29 @@ Theorem C14_lz4f_st_fresh_reads_exactly :
     s_in s' = tail.
 Proof. exact IoLz4fExact.lz4f_st_fresh_reads_exactly. Qed.
 Print Assumptions C14_lz4f_st_fresh_reads_exactly.
+
+(* the state a returning concrete loop leaves on [frame ++ tail] is the one of the abstract step Io.lz4f_st: the source
+   holds exactly what follows the frame, the destination received exactly the frame's content (nothing in test mode).
+   (The event traces differ by the chunking only: several ERead / EWrite against one each.  The converse - the abstract
+   step returns => the concrete loop returns, i.e. termination within the fuel and no spurious error - is not proved.) *)
+Theorem C14_lz4f_st_return_state :
+  forall (bdec : list byte -> list byte -> option (list byte)) fuel ifuel test fl d0 s s' fr tail content,
+    IoLz4fRefine.dctx_fresh d0 ->
+    FrameD.r_consumed (snd (FrameD.decompress_usingDict bdec d0 IoLz4fRefine.magic4 0 [] (IoLz4f.o_first false))) = 4 ->
+    s_in s = fr ++ tail -> bytes_ok (s_in s) = true ->
+    frame_decode bdec false [] (IoLz4fRefine.magic4 ++ fr) = Some (content, []) ->
+    IOL_dBufferSize * Z.of_nat ifuel * Z.of_nat fuel < IoLz4fRefine.M64 ->
+    IoLz4f.lz4f_st_c bdec fuel ifuel false test fl d0 s = Ret tt s' ->
+    s_in s' = tail /\ s_out s' = s_out s ++ IoLz4fRefine.wrote test content.
+Proof. exact IoLz4fExact.lz4f_st_c_return_state. Qed.
+Print Assumptions C14_lz4f_st_return_state.
+
+(* the frame of C14_ex_concrete_loop followed by two bytes: hypotheses met, the two bytes are left *)
+Example C14_ex_reads_exactly :
+  let fr := [96; 64; 130; 3; 0; 0; 128; 97; 98; 99; 0; 0; 0; 0] in
+  frame_decode spec_decode false [] (IoLz4fRefine.magic4 ++ fr) = Some ([97; 98; 99], []) /\
+  match IoLz4f.lz4f_st_c spec_decode 30 30 false false no_faults FrameD.dctx_init (st_init (fr ++ [7; 7]) 0) with
+  | Ret _ s' => s_in s' = [7; 7]
+  | Die _ _ => False
+  end.
+Proof. vm_compute. split; reflexivity. Qed.
